@@ -19,3 +19,38 @@ Definition with_width (c : config) (w : N) : config :=
   {| tab_spaces := tab_spaces c; max_width := w;
      blank_lines_upper_bound := blank_lines_upper_bound c;
      reorder_import_items := reorder_import_items c |}.
+
+(* Config::chain_width: (self.max_width as f32 * CHAIN_WIDTH_RATIO) as usize, in binary32.
+   round24 m: round the integer m to 24 significant bits, ties to even (value kept as an integer). *)
+Definition round24 (m : N) : N :=
+  let bits := N.size m in
+  if bits <=? 24 then m
+  else
+    let s := bits - 24 in
+    let q := N.shiftr m s in
+    let r := m - N.shiftl q s in
+    let half := N.shiftl 1 (s - 1) in
+    let q' := if (half <? r) || ((half =? r) && N.odd q) then q + 1 else q in
+    N.shiftl q' s.
+
+(* nearest binary32 to num/den, as mantissa/2^k with 2^23 <= mantissa < 2^24 (for 0 < num/den < 2^24) *)
+Fixpoint f32_of_ratio_aux (fuel : nat) (num den k : N) : N * N :=
+  match fuel with
+  | O => (0, 0)
+  | S f =>
+      let scaled := N.shiftl num k in
+      let q := scaled / den in
+      if 8388608 <=? q then
+        (* q has >= 24 bits: round scaled/den to nearest, ties to even *)
+        let r := scaled - q * den in
+        let q' := if (den <? 2 * r) || ((den =? 2 * r) && N.odd q) then q + 1 else q in
+        (q', k)
+      else f32_of_ratio_aux f num den (k + 1)
+  end.
+Definition f32_of_ratio (num den : N) : N * N := f32_of_ratio_aux 64 num den 0.
+
+Definition chain_width_of (num den : N) (max_width : N) : N :=
+  let '(mant, k) := f32_of_ratio num den in
+  let w := round24 max_width in            (* max_width as f32 *)
+  let p := round24 (w * mant) in            (* product, exact then rounded; scaled by 2^k *)
+  N.shiftr p k.                              (* as usize: truncation *)
